@@ -171,6 +171,30 @@ def catalogue(tier):
     return out
 
 
+def anchored(tier):
+    """fan triangles with ONE VERTEX EXACTLY ON a special point of the face plane (face centre, edge midpoints, pentagon vertices,
+    points on seam rays): the unprojection is evaluated exactly at the points where it switches formulas"""
+    out = []
+    specials = [('centre', 0.0, 0.0)]
+    for k in range(5):
+        specials.append((f'edgemid{k}',) + fp.from_local(fp.D_EDGE, 0.0, k))
+        a = fp.A36 + k * fp.A72
+        specials.append((f'vertex{k}', fp.R_VERTEX * math.cos(a), fp.R_VERTEX * math.sin(a)))
+    for j in range(10):
+        g = j * fp.A36
+        specials.append((f'onseam{j}', 0.4 * fp.D_EDGE * math.cos(g), 0.4 * fp.D_EDGE * math.sin(g)))
+    sizes = [1e-3, 1e-2, 0.1, 0.3] if tier == 'quick' else [1e-4, 1e-3, 1e-2, 0.1, 0.3]
+    for name, sx, sy in specials:
+        for sz in sizes:
+            rad = sz * FACE_WIDTH / 2
+            for d in range(0, 360, 40):
+                a1, a2 = math.radians(d), math.radians(d + 50)
+                poly = [(sx, sy), (sx + rad * math.cos(a1), sy + rad * math.sin(a1)), (sx + rad * math.cos(a2), sy + rad * math.sin(a2))]
+                if inside_domain(poly):
+                    out.append((f'anchored_{name}_{sz:g}_d{d}', poly, sz))
+    return out
+
+
 def work(task):
     Proj = _lib()
     proj = Proj()
@@ -188,7 +212,7 @@ def work(task):
 
 def run(tier, t0):
     acc = common.Acc()
-    cat = catalogue(tier)
+    cat = catalogue(tier) + anchored(tier)
     tasks = []
     for f in range(12):
         for ch in common.chunks(cat, 40):
@@ -199,7 +223,7 @@ def run(tier, t0):
     acc.sample({'face': 4, 'polygon': [list(p) for p in cat[len(cat) // 2][1]], 'name': cat[len(cat) // 2][0]})
     acc.sample({'constant': SCALE, 'meaning': '(4 pi / 12) / area of the face pentagon'})
     rule = (f'12 faces x {len(cat)} polygons: triangles, quads and thin triangles at sizes 1e-4..0.5 face widths centred on the face centre, on each of the 10 seam rays at 3 radii, '
-            'straddling and beyond each of the 5 edges, and inside each vertex (only polygons wholly inside the pentagon or a mirror triangle); edges densified at K, 4K(, 16K) and Richardson-extrapolated; '
+            'straddling and beyond each of the 5 edges, and inside each vertex (only polygons wholly inside the pentagon or a mirror triangle); plus fan triangles with one vertex exactly on the face centre, an edge midpoint, a pentagon vertex or a seam ray; edges densified at K, 4K(, 16K) and Richardson-extrapolated; '
             'non-trivial = polygons whose area ratio met 1e-6')
     return common.finish(PID, LEVEL, tier, acc, t0, rule, [
         'spherical area by the signed spherical-excess formula in difference form on the unprojected polyline; discretisation error ~K^-2 extrapolated from the last two K',
